@@ -571,7 +571,9 @@ def _leaf(leaf):
 # removes it for the check of THAT signature only; in witness scripts nothing is removed, so the embedded signature can
 # never be valid) and an OP_CODESEPARATOR between the checks.  The output script then depends on a signature, so the
 # spent outpoint is a fixed one (not the hash of a crediting transaction, which would make the digest circular).
-TWO_CHECK_LEAVES = ("fad2", "fad2r", "codesep2")
+# fad2p75 / fad2p76: fad2 with the embedded signature padded (lax DER: zero octets in front of R) to exactly 75 / 76
+# bytes - the largest direct push and the smallest OP_PUSHDATA1 push, the boundary of the pattern FindAndDelete removes
+TWO_CHECK_LEAVES = ("fad2", "fad2r", "codesep2", "fad2p75", "fad2p76")
 _FIXED_PREV = b"\x37" * 32
 
 
@@ -599,9 +601,20 @@ def _two_check_leaf(leaf, wit_inner, bad):
         return inner, [sig_b, sig_a]
     tail = push_enc(K1) + b"\xad" + push_enc(K1) + b"\xac"              # K1 CHECKSIGVERIFY K1 CHECKSIG
     sig_a = _sign(_D1, z_of(b"\x75" + tail), 1, False)                    # its own push is deleted from the script code
+    if leaf in ("fad2p75", "fad2p76"):
+        sig_a = _pad_sig(sig_a, 75 if leaf == "fad2p75" else 76)
     inner = push_enc(sig_a) + b"\x75" + tail                             # <sigA> DROP K1 CHECKSIGVERIFY K1 CHECKSIG
     sig_b = _sign(_D1, z_of(inner), 1, bad)                               # not in the script: nothing is deleted
-    return inner, ([sig_b, sig_a] if leaf == "fad2" else [sig_a, sig_b])
+    return inner, ([sig_a, sig_b] if leaf == "fad2r" else [sig_b, sig_a])
+
+
+def _pad_sig(blob, total):
+    """the same (r, s, hash type) in lax DER with zero octets in front of R so that the blob has `total` bytes"""
+    r, s = parse_der_lax(blob[:-1])
+    out = der_sig(r, s, blob[-1], pad_r=total - len(der_sig(r, s, blob[-1])))
+    if len(out) != total or parse_der_lax(out[:-1]) != (r, s):
+        raise ValueError("cannot pad signature to %d bytes" % total)
+    return out
 
 
 def concretize(shape):
